@@ -233,6 +233,68 @@ def run_case(case, rec):
                 compare(rec, m, [sp], label='C06 recovery add')
             rec.event('recovery.add')
 
+            # ---------------- faults while an ILI index is added (same entry point, other code path)
+            env.close_pool()
+            shutil.rmtree(saved)
+            shutil.copytree(fdb.dir, saved)
+            env.use_db_dir(fdb.dir)
+            state['before'] = dbdump.dump(fdb.path)
+            ili_path = work / 'cili.tsv'
+            rows = ['ili\tstatus\tdefinition'] + [f'i{n}\t{r.choice(["active", "deprecated", "brand new status"])}\tdefinition {n}'
+                                                   for n in r.sample(range(1, 40), 12)]
+            ili_path.write_text('\n'.join(rows) + '\n')
+            old_batch = getattr(wnadd, 'BATCH_SIZE', None)
+            if old_batch is not None:
+                wnadd.BATCH_SIZE = 3          # several batches, so a fault can fall between two of them
+            shutil.copytree(saved, dry)
+            env.use_db_dir(dry)
+            counter.n, counter.fail_at = 0, None
+            first_iline = {}
+
+            def rec_iline(code, lineno):
+                lf.n += 1
+                first_iline.setdefault((code.co_name, lineno), lf.n)
+            sys.monitoring.register_callback(lf.tool, sys.monitoring.events.LINE, rec_iline)
+            with mon.call('add-ili'), lf:
+                wn.add(ili_path, progress_handler=Faulty)
+            sys.monitoring.register_callback(lf.tool, sys.monitoring.events.LINE, orig)
+            IK, IW = counter.n, mon.write_auths
+            after_ili = dbdump.dump(dry / 'wn.db')
+            env.close_pool()
+            shutil.rmtree(dry)
+            env.use_db_dir(fdb.dir)
+            rec.event('dry.ili.callbacks', IK)
+
+            def do_ili():
+                wn.add(ili_path, progress_handler=Faulty)
+
+            for k in pick(range(1, IK + 1), lim['rauth'], r):
+                counter.n, counter.fail_at = 0, k
+                inject('add-ili', 'progress', k, do_ili, after_ili)
+            counter.fail_at = None
+            for k in pick(range(1, IW + 1), lim['rauth'], r):
+                counter.n = 0
+                env.use_db_dir(fdb.dir)
+                inject('add-ili', 'auth', k, do_ili, after_ili)
+            for k in pick(sorted(first_iline.values()), lim['rline'], r):
+                counter.n = 0
+                lf.fail_at = k
+
+                def run_iline():
+                    with lf:
+                        wn.add(ili_path, progress_handler=Faulty)
+                inject('add-ili', 'line', k, run_iline, after_ili)
+            lf.fail_at = None
+            counter.n = 0
+            wn.add(ili_path, progress_handler=Faulty)
+            if dbdump.dump(fdb.path) != after_ili:
+                rec.violation('add-ili:recovery-differs', 'ILI add after the injected failures differs from the same add without them')
+            rec.event('recovery.add-ili')
+            if old_batch is not None:
+                wnadd.BATCH_SIZE = old_batch
+            # the model needs the ILI rows for the observations that follow
+            m.add_ili([dict(zip(['ili', 'status', 'definition'], line.split('\t'))) for line in rows[1:]])
+
             # ---------------- faults in remove(pbase) - a base with an extension chain
             env.close_pool()
             shutil.rmtree(saved)
